@@ -142,6 +142,14 @@ pub fn gen_case(rng: &mut Rng, n: usize, real: bool, class: u64) -> Case {
         8 => { let mut c = vec![z0; n + 1]; c[n] = Cmplx::new(1.0, 0.0); c[0] = if real { Cmplx::new(rng.logmag(1e-3, 1e3), 0.0) } else { match rng.below(4) { 0 => Cmplx::new(0.0, rng.logmag(1e-3, 1e3)), 1 => Cmplx::new(rng.logmag(1e-3, 1e3), 0.0), 2 => *rng.pick(&[Cmplx::new(0.0, 1.0), Cmplx::new(0.0, -1.0), Cmplx::new(-1.0, 0.0), Cmplx::new(0.0, -16.0)]), _ => Cmplx::new(rng.sym(), rng.sym()) } };
             if rng.chance(0.3) { let l = *rng.pick(&[2.0, -1.0, 0.5, 3.0]); c[n] = if real || rng.bool() { Cmplx::new(l, 0.0) } else { Cmplx::new(0.0, l) }; }
             Case { coeffs: c, real, class: "x^n+c", known_roots: None } }
+        12 => { // complex polynomials with isolated roots a hair off the real axis (|Im| = 1e-12..1e-9 |Re|), others generic
+            if real { return gen_case(rng, n, real, 0); }
+            let mut r: Vec<Cmplx> = (0..n).map(|_| Cmplx::new(rng.int(-6, 6) as f64 * 0.5 + 0.25, rng.int(-6, 6) as f64 * 0.5)).collect();
+            let x = rng.int(1, 6) as f64 * if rng.bool() { 1.0 } else { -1.0 };
+            r[0] = Cmplx::new(x, x.abs() * rng.logpos(1e-12, 1e-9) * if rng.bool() { 1.0 } else { -1.0 });
+            let mut ok = true; for i in 0..n { for j in 0..i { if fl::cabs(r[i] - r[j]) < 0.4 { ok = false; } } }
+            if !ok { return gen_case(rng, n, real, 0); }
+            Case { coeffs: expand(&r, Cmplx::new(1.0, 1.0)), real, class: "nearly-real-root", known_roots: None } }
         10 => { // sparse, wide-scale: about half of the coefficients vanish, the others spread over six decades
             let mut c: Vec<Cmplx> = (0..=n).map(|_| if rng.chance(0.45) { z0 } else { let s = rng.logpos(1e-3, 1e3); rc(rng, s) }).collect();
             c[n] = nzlead(rng) * rng.logpos(1e-3, 1e3);
@@ -222,11 +230,45 @@ fn rejection(st: &mut Stats, rng: &mut Rng) {
     }
 }
 
+/// one live polynomial: roots() interleaved with edits through the index operator and coeffs(); every answer is judged
+/// against the polynomial as it is stored at that moment (a stale cached answer is not a root of it)
+fn history(st: &mut Stats, rng: &mut Rng) {
+    st.next_case();
+    let n = rng.usize(2, 6);
+    let real = rng.bool();
+    let mut c: Vec<Cmplx> = (0..=n).map(|_| Cmplx::new(rng.int(-9, 9) as f64, if real { 0.0 } else { rng.int(-9, 9) as f64 })).collect();
+    if fl::cabs(c[n]) == 0.0 { c[n] = Cmplx::new(1.0, 0.0); }
+    let mut pr = Polynomial::new(c.iter().map(|z| z.real).collect::<Vec<f64>>());
+    let mut pc = Polynomial::new(c.clone());
+    let mut log: Vec<String> = vec![format!("start {:?}", c)];
+    for _ in 0..rng.usize(2, 6) {
+        let refine = rng.bool();
+        let out = if real { catch(|| pr.roots(refine)) } else { catch(|| pc.roots(refine)) };
+        st.eval();
+        log.push(format!("roots({})", refine));
+        match out {
+            Outcome::Ok(r) => {
+                let t = tau(n, refine).max(1e-9);
+                let worst = r.vec.iter().map(|z| backward_error(&c, *z)).fold(0.0f64, f64::max);
+                if r.vec.len() != n || !fl::all_finite_c(&r.vec) || !(worst <= t) { st.violation("C10:history:roots:stale-or-wrong", format!("after {:?}: roots = {:?} have backward error {:e} for the current coefficients {:?}", log, r.vec, worst, c)); return; }
+            }
+            o => { st.violation("C10:history:roots:panic", format!("{} after {:?}", o.describe(), log)); return; }
+        }
+        // edit a non-leading coefficient in place (index operator or coeffs())
+        let i = rng.usize(0, n - 1);
+        let v = rng.int(-9, 9) as f64;
+        c[i] = Cmplx::new(v, if real { 0.0 } else { c[i].imag });
+        if rng.bool() { log.push(format!("p[{}] = {}", i, v)); if real { pr[i] = v; } else { pc[i] = c[i]; } }
+        else { log.push(format!("coeffs()[{}] = {}", i, v)); if real { pr.coeffs()[i] = v; } else { pc.coeffs()[i] = c[i]; } }
+    }
+    st.count("roots-histories");
+}
+
 pub fn run(ctx: &Ctx) -> Report {
     // hook liveness
     let (_, log) = with_log(|| Polynomial::new(vec![1.0, -3.0, 0.5, 2.0, 1.0]).roots(true));
     let hook_live = log.calls > 0;
-    let units = 12u64 * 11 * 2; // degree x class x {real, complex}
+    let units = 12u64 * 12 * 2; // degree x class x {real, complex}
     if !ctx.quick() { let _ = HARD_OUT.set(format!("{}/c10_hard_candidates.{}.txt", ctx.workdir, ctx.profile)); }
     let corpus = load_corpus();
     let corpus_units = ((corpus.len() + 49) / 50) as u64;
@@ -241,8 +283,8 @@ pub fn run(ctx: &Ctx) -> Report {
             }
             return;
         }
-        let n = (u / 22) as usize + 1;
-        let class = [0, 1, 2, 3, 4, 5, 6, 7, 8, 9, 10][((u / 2) % 11) as usize];
+        let n = (u / 24) as usize + 1;
+        let class = [0, 1, 2, 3, 4, 5, 6, 7, 8, 9, 10, 12][((u / 2) % 12) as usize];
         let class = if class == 9 { 11 } else { class }; // 11 = x^n+eps*x+c (the default arm)
         let real = u % 2 == 0;
         for k in 0..reps {
@@ -250,10 +292,11 @@ pub fn run(ctx: &Ctx) -> Report {
             judge(st, &case, k % 2 == 0);
             if k % 16 == 0 { judge(st, &case, k % 2 == 1); }
         }
-        if u % 22 == 0 { for _ in 0..5 { rejection(st, rng); } }
+        if u % 24 == 0 { for _ in 0..5 { rejection(st, rng); history(st, rng); } }
+        if u % 3 == 0 { history(st, rng); }
     });
     let mut rep = Report::new(stats,
-        "degrees 1..12 x {f64, Complex<f64>} x {refine, no refine} x 11 classes (random, sparse wide-scale (half of the coefficients zero, the rest over six decades), coefficient scale ratio up to 1e6, vanishing constant term of multiplicity 1..n, vanishing inner coefficients, well-separated half-integer-lattice roots with exact coefficients, repeated roots, clusters 1e-3 apart, conjugate/purely imaginary pairs, x^n+c, x^n+eps*x+c); per call: n finite values, normwise backward error |p(z)|/(max|a_k| max(1,|z|)^n) in complex double-double <= tau(path), one-to-one matching for the well-separated class; degree-0 and empty polynomials must be rejected. Hook H5 classifies each call by whether a Laguerre iteration hit its cap, and (thorough tier) records inputs on which an iteration needs >= 21 passes; a committed corpus of such inputs (corpus/c10_hard.txt, found by this monitor on the repaired tree) is replayed on every run in both refinement modes. Every case non-trivial; distinct = distinct (type,refine,coefficients) hashes");
+        "degrees 1..12 x {f64, Complex<f64>} x {refine, no refine} x 12 classes (complex roots a hair off the real axis, random, sparse wide-scale (half of the coefficients zero, the rest over six decades), coefficient scale ratio up to 1e6, vanishing constant term of multiplicity 1..n, vanishing inner coefficients, well-separated half-integer-lattice roots with exact coefficients, repeated roots, clusters 1e-3 apart, conjugate/purely imaginary pairs, x^n+c, x^n+eps*x+c); per call: n finite values, normwise backward error |p(z)|/(max|a_k| max(1,|z|)^n) in complex double-double <= tau(path), one-to-one matching for the well-separated class; degree-0 and empty polynomials must be rejected. Hook H5 classifies each call by whether a Laguerre iteration hit its cap, and (thorough tier) records inputs on which an iteration needs >= 21 passes; a committed corpus of such inputs (corpus/c10_hard.txt, found by this monitor on the repaired tree) is replayed on every run in both refinement modes. Every case non-trivial; distinct = distinct (type,refine,coefficients) hashes");
     rep.assumptions = vec![
         "thresholds: degree 1-2 64u; degree 3 1e-6 plain / 64u refined; degree>=4 1e-8 plain / 1e-12 refined".into(),
         "matching radius 16*tau*max|a|*max(1,|zeta|)^n/|p'(zeta)| (first-order forward error), capped at 0.2".into(),
